@@ -82,14 +82,35 @@ func convertToParagraph(data reflect.Value) (*Paragraph, error) {
 		}
 	}
 
+	if err := collectMembers(data, paragraphType, &foundParagraph, &order, values); err != nil {
+		return nil, err
+	}
+	para := foundParagraph.Update(Paragraph{Order: order, Values: values})
+	return &para, nil
+}
+
+// }}}
+
+// collectMembers renders the members of one struct into order / values; the
+// members of an anonymously embedded plain struct count as the struct's own
+// (the decoder fills them in the same way).
+func collectMembers(data reflect.Value, paragraphType reflect.Type, foundParagraph *Paragraph, order *[]string, values map[string]string) error {
 	for i := 0; i < data.NumField(); i++ {
 		field := data.Field(i)
 		fieldType := data.Type().Field(i)
 
 		if fieldType.Anonymous {
+			selfMarshals := false
+			if field.CanInterface() {
+				_, selfMarshals = field.Interface().(Marshallable)
+			}
+			if fieldType.Type != paragraphType && field.Kind() == reflect.Struct && !selfMarshals && fieldType.Tag.Get("control") != "-" {
+				if err := collectMembers(field, paragraphType, foundParagraph, order, values); err != nil {
+					return err
+				}
+			}
 			continue
 		}
-
 		if fieldType.PkgPath != "" {
 			/* unexported members are none of our business (and can't
 			 * be looked into anyway) */
@@ -108,14 +129,14 @@ func convertToParagraph(data reflect.Value) (*Paragraph, error) {
 
 		data, err := marshalStructValue(field, fieldType)
 		if err != nil {
-			return nil, err
+			return err
 		}
 
 		required := fieldType.Tag.Get("required") == "true"
 		if data == "" && !required {
 			/* the field was cleared: the value it had when the
 			 * Paragraph was read must not come back */
-			foundParagraph = foundParagraph.without(paragraphKey)
+			*foundParagraph = foundParagraph.without(paragraphKey)
 			continue
 		}
 
@@ -123,14 +144,11 @@ func convertToParagraph(data reflect.Value) (*Paragraph, error) {
 			data = "\n" + data
 		}
 
-		order = append(order, paragraphKey)
+		*order = append(*order, paragraphKey)
 		values[paragraphKey] = data
 	}
-	para := foundParagraph.Update(Paragraph{Order: order, Values: values})
-	return &para, nil
+	return nil
 }
-
-// }}}
 
 // convert a struct value {{{
 
